@@ -869,3 +869,10 @@ Proof.
 Qed.
 
 End Lex.
+
+Print Assumptions lex_comment.
+Print Assumptions lex_pi.
+Print Assumptions lex_text.
+Print Assumptions lex_element.
+Print Assumptions lex_close.
+Print Assumptions consume_qname_st.
